@@ -447,3 +447,88 @@ mut("c17-mpxs-conns-one", "C17", PV,
     """                Self::FCGI_MPXS_CONNS => CompactString::const_new("0"),""",
     """                Self::FCGI_MPXS_CONNS => CompactString::const_new("1"),""",
     "R17.5/write_response/value", "advertises multiplexing")
+
+# ---- C15 -------------------------------------------------------------------------------------------------
+VI = "src/protocol/varint.rs"
+mut("c15-max-2-31", "C15", VI,
+    """    pub const MAX: Self = VarInt((1 << 31) - 1);""",
+    """    pub const MAX: Self = VarInt(1 << 31);""",
+    "O1/constants", "2^31 accepted: its encoding collides with 0")
+mut("c15-range-check-ge", "C15", VI,
+    """        if v > Self::MAX.into() {""",
+    """        if v >= Self::MAX.into() {""",
+    "O2/try_from_u32", "MAX itself rejected")
+mut("c15-long-bit-literal-read", "C15", VI,
+    """        if buf[0] & Self::LONG_BIT == 0 {
+            return Ok(buf[0].into());
+        }""",
+    """        if buf[0] & 0x40 == 0 {
+            return Ok(buf[0].into());
+        }""",
+    "O4/read/forms", "decoder tests a different bit")
+mut("c15-little-endian-read", "C15", VI,
+    """        Ok(Self(u32::from_be_bytes(buf)))""",
+    """        Ok(Self(u32::from_le_bytes(buf)))""",
+    "O4/read/forms", "byte order mismatch")
+mut("c15-plain-read-for-tail", "C15", VI,
+    """        r.read_exact(&mut buf[1..])?;""",
+    """        let _n = r.read(&mut buf[1..])?;""",
+    "O5/read/read_exact-only", "truncated long form accepted")
+mut("c15-write-count-constant", "C15", VI,
+    """            let mut e: [u8; 4] = self.0.to_be_bytes();
+            e[0] |= Self::LONG_BIT;
+            w.write_all(&e).and(Ok(e.len()))""",
+    """            let mut e: [u8; 4] = self.0.to_be_bytes();
+            e[0] |= Self::LONG_BIT;
+            w.write_all(&e).and(Ok(1))""",
+    "O6/write/count", "reports 1 byte for the long form")
+mut("c15-unchecked-constructor", "C15", VI,
+    """impl From<u16> for VarInt {""",
+    """impl VarInt {
+    /// Wraps a raw value.
+    #[must_use]
+    pub fn from_raw(v: u32) -> Self {
+        Self(v)
+    }
+}
+
+impl From<u16> for VarInt {""",
+    "O3/construction-site", "a constructor that bypasses the range check")
+
+# ---- C20 -------------------------------------------------------------------------------------------------
+RS = "src/cgi/response.rs"
+mut("c20-count-off-by-one", "C20", RS,
+    """        written += name.len() + val.len() + 3;""",
+    """        written += name.len() + val.len() + 2;""",
+    "R20.2/write_headers/count", "count misses one byte per header")
+mut("c20-omit-final-blank-line", "C20", RS,
+    """    w.write_all(b"\\n\\n")?;
+    Ok(written + 2)""",
+    """    w.write_all(b"\\n")?;
+    Ok(written + 1)""",
+    "R20.1/write_headers/grammar", "header block not terminated")
+mut("c20-separator-before-name", "C20", RS,
+    """        w.write_all(name)?;
+        w.write_all(b": ")?;""",
+    """        w.write_all(b": ")?;
+        w.write_all(name)?;""",
+    "R20.1/write_headers/grammar", "': ' before the name")
+mut("c20-plain-write", "C20", RS,
+    """        w.write_all(val)?;""",
+    """        w.write(val)?;""",
+    "R20.3/write_headers/write_all-only", "short write of a value reported as success")
+mut("c20-ignore-result", "C20", RS,
+    """    w.write_all(val)?;
+    w.write_all(b"\\n\\n")?;
+    Ok(LOCATION.len() + 2 + val.len())""",
+    """    w.write_all(val)?;
+    let _ = w.write_all(b"\\n\\n");
+    Ok(LOCATION.len() + 2 + val.len())""",
+    "R20.3/simple_redirect", "failure of the last write reported as success")
+mut("c20-benign-sum-at-end", "C20", RS,
+    """    w.write_all(b"\\n\\n")?;
+    Ok(written + 2)""",
+    """    w.write_all(b"\\n\\n")?;
+    let total = 2 + written;
+    Ok(total)""",
+    None, "count computed in a different order")
